@@ -67,6 +67,12 @@ AddErr(w, uid, oid, par) ==
   /\ \/ (par # Tied(w).par /\ Tied(w).par # -1)
      \/ (uid # NoId /\ Tied(w).uid # NoId)
      \/ (oid # NoId /\ Tied(w).oid # NoId)
+(* a second, DIFFERENT fixed register / parent must be refused; repeating the same one may be refused *)
+AddErrStrict(w, uid, oid, par) ==
+  /\ Idx(w) >= 0
+  /\ \/ (par # Tied(w).par /\ Tied(w).par # -1)
+     \/ (uid # NoId /\ Tied(w).uid # NoId /\ uid # Tied(w).uid)
+     \/ (oid # NoId /\ Tied(w).oid # NoId /\ oid # Tied(w).oid)
 Common(b, w, f2, usedId, clobId, fixed) ==
   [b EXCEPT !.agg = @ \cup f2,
             !.used[G(w) + 1] = @ \cup (IF usedId # NoId THEN {usedId} ELSE {}),
@@ -116,9 +122,10 @@ MarkEff(w, bit) == [tb EXCEPT !.tied[Idx(w) + 1].f = @ \cup {bit}]
 ValidW(w) == w \in 0 .. Len(wg) - 1
 Pre(op, r) ==
   LET k == op[1] IN
-  CASE k = "add"  -> ValidW(op[2]) /\ (op[12] = -1 \/ ValidW(op[12])) /\ ((r = "Ok") = ~AddErr(op[2], op[6], op[9], op[12]))
+  CASE k = "add"  -> /\ ValidW(op[2]) /\ (op[12] = -1 \/ ValidW(op[12]))
+                     /\ (r # "Ok" => AddErr(op[2], op[6], op[9], op[12])) /\ (AddErrStrict(op[2], op[6], op[9], op[12]) => r # "Ok")
     [] k = "arg"  -> ValidW(op[2]) /\ op[3] # NoId /\ r = "Ok"
-    [] k = "ret"  -> ValidW(op[2]) /\ op[3] # NoId /\ ((r = "Ok") = ~RetErr(op[2]))
+    [] k = "ret"  -> ValidW(op[2]) /\ op[3] # NoId /\ (r # "Ok" => RetErr(op[2])) /\ ((RetErr(op[2]) /\ Tied(op[2]).oid # op[3]) => r # "Ok")
     [] k \in {"ro", "wo", "usedone", "outdone"} -> ValidW(op[2]) /\ Idx(op[2]) >= 0
     [] k = "cdata" -> op[2] \in 0 .. 3
     [] k \in {"aggr", "reset"} -> TRUE
